@@ -21,6 +21,7 @@ import (
 	"sync"
 	"sync/atomic"
 
+	"github.com/hprose/hprose-golang/v3/internal/verifhook"
 	"github.com/hprose/hprose-golang/v3/rpc/core"
 )
 
@@ -104,6 +105,9 @@ func (c *conn) Transport(ctx context.Context, request []byte) (response []byte, 
 	index := int(atomic.AddInt32(&c.counter, 1) & 0x7fff)
 	resultChan := make(chan data, 1)
 	c.store(index, resultChan)
+	if verifhook.On {
+		verifhook.Gate("mux.afterStore", c, index, request)
+	}
 	select {
 	case <-ctx.Done():
 		c.delete(index)
@@ -126,6 +130,9 @@ func (c *conn) Transport(ctx context.Context, request []byte) (response []byte, 
 
 func (c *conn) Exit(onExit func(), err error) {
 	onExit()
+	if verifhook.On {
+		verifhook.Gate("mux.afterOnExit", c, err)
+	}
 	if e := recover(); e != nil {
 		err = core.NewPanicError(e)
 	}
@@ -219,6 +226,9 @@ func (c *conn) Close(err error) {
 			Error: err,
 		}
 	})
+	if verifhook.On {
+		verifhook.Gate("mux.afterClean", c, err)
+	}
 }
 
 type Transport struct {
@@ -278,6 +288,9 @@ func (trans *Transport) Transport(ctx context.Context, request []byte) ([]byte, 
 	conn, err := trans.getConn(ctx)
 	if err != nil {
 		return nil, err
+	}
+	if verifhook.On {
+		verifhook.Gate("mux.afterGetConn", conn, request)
 	}
 	return conn.Transport(ctx, request)
 }
